@@ -18,7 +18,7 @@ PROOF_DIRS = {"C16": None, "C17": ["C16"], "C18": ["C16", "C17"]}
 
 
 def build():
-    return core.ocaml_build("c16", "C16/Extract.v", "driver.ml", dirs=["C16"])
+    return core.ocaml_build("c16", "C16/Extract.v", "driver.ml", extra_ml=["bisim.ml"], dirs=["C16"])
 
 
 def run_batch(prop, exe, src, histories, trace=False, timeout=2400):
@@ -70,7 +70,7 @@ ENUM_PLAN = {
     "quick": {"C16": [("small", 4, 0)], "C17": [("full", 3, 0), ("small", 4, 0)], "C18": [("full", 3, 0)]},
     "thorough": {"C16": [("small", 8, 16000000)],
                  "C17": [("full", 6, 9000000), ("small", 7, 6000000)],
-                 "C18": [("full", 5, 700000)]},
+                 "C18": [("full", 5, 0)]},
 }
 ENUM_MAXSTATES = 50000000
 
@@ -220,8 +220,12 @@ def check(run, prop):
                        "rpc_qdrop (Drop) is outside the properties' alphabets but modelled, tied and generated for all three (since b6f8314 waitjobs forgets a dropped "
                        "job's id only while it still names the waited-for object; the Coq theorems quantify over the full alphabet incl. Drop/Watchdog); "
                        "dropdead (Watchdog) is generated for C18 and inside the drop family",
-                       "Wait is not generated on a connection whose disconnect is pending (gevent corner: a client that starts waiting on an already-set event while "
-                       "its notifier is pending is released one loop turn later if an earlier waiter died first; history D 1;A 1 1 - 0;W 1 a1;K 5 a1;W 5 a1;L; model says same turn)"]
+                       "KNOWN DEFECT of the real code, excluded from generation until /verif/fixes/C17-wait-lost-wakeup.diff is in /repo: a client that starts waiting on an "
+                       "already finished job while gevent's finish notifier is still pending is NEVER released if every earlier waiter's connection drops before the "
+                       "notifier runs (gevent 26.8 unlink() cancels the notifier together with the late waiters registered on it; history A 0 0 - -;W 1 a1;D 1;K 7 a1;W 5 a1;L). "
+                       "The model (and the Coq liveness theorems C17_runloop_releases / C17_wait_ends_by_release_or_death) say: released in that loop turn. The generators "
+                       "(c16_common.avoid_lost_wakeup_corner) produce no Wait on a connection whose disconnect is pending and no Wait between a job-finishing op and the next "
+                       "RunLoop while a disconnect is pending; the enumerator's Wait ops come from client connections that never disconnect"]
     src = core.snapshot(need_ext=False)
     run.check_proofs(prop, dirs=PROOF_DIRS[prop])
     exe = build()
@@ -327,6 +331,17 @@ def check(run, prop):
         if os.environ.get("VERIF_SAVE_CORPUS") == "1":
             fn = os.path.join(core.VERIF, "corpus", prop, "auto-%s.json" % hashlib.sha256(hist.encode()).hexdigest()[:10])
             json.dump({"history": hist, "note": "%s: %s" % (mon, msg)}, open(fn, "w"), indent=1)
+    if prop == "C18":
+        # the restart bisimulation (proved in Coq: C18_restart_bisim) checked exhaustively on the EXTRACTED model to a bound:
+        # guards the statement's definitions (requeue_all, obs) against the executable model on every run
+        from vt.harness import c16_bisim
+        d1, d2 = (2, 2) if quick else (4, 2)
+        bs = c16_bisim.run_bisim(exe, d1, d2, maxjobs=3, shards=shards)
+        run.obligation("restart-bisim-on-extracted-model", bs["ok"],
+                       "start states %(start_states)d (<= %(d1)d ops), continuations <= %(d2)d ops: %(steps_compared)d step pairs compared, "
+                       "%(distinct_pairs)d distinct state pairs, %(mismatches)d mismatches, %(stats_only_differences)d differing only in Stats counters" % bs
+                       + ("; " + " | ".join(bs["examples"]) if bs["examples"] else ""))
+        run.coverage["restart_bisim_model_check"] = {k: v for k, v in bs.items() if k != "examples"}
     run.coverage["exhaustive"] = False
     run.coverage["input_distribution"] = {"corpus": ncorpus, "random_histories": nrand, "histories": nhist,
                                           "histories_corpus_random%s" % ("_enumerated" if quick else ""): nfixed,
